@@ -151,22 +151,31 @@ def run_cases(cli, cases):
 def observe(case, r):
     """canonical text of what the binary did (same format as Cli.show_cli)"""
     out = r["stdout"]
-    lines = out.split("\n")
-    if lines and lines[-1] == "":
-        lines.pop()
-    objs = [as_object_line(l) for l in lines]
-    if len(lines) == 1 and objs[0] is not None:
-        o = canon_top(objs[0])
-    elif any(x is not None for x in objs):
-        o = "!object-among-other-text"
+    whole = as_object_line(out.strip()) if out.strip() else None
+    if whole is not None:
+        o = canon_top(whole)                      # stdout is exactly one JSON object (any layout)
     else:
-        o = "-"
+        lines = [l for l in out.split("\n") if l.strip()]
+        if any(as_object_line(l) is not None for l in lines):
+            o = "!object-among-other-text"
+        else:
+            o = "-"
     if r["file"] is None:
         f = "-"
     else:
         fo = as_object_line(r["file"])
         f = canon_top(fo) if fo is not None else "!not-an-object"
     return "EXIT:%d;OUT:%s;FILE:%s" % (r["rc"], o, f)
+
+
+ABNORMAL = (101, 134, 139)
+
+
+def law_view(obs):
+    """for the contract on the binary alone only zero / non-zero matters (the model says 1)"""
+    code, _, rest = obs.partition(";")
+    n = int(code[5:])
+    return ("EXIT:0" if n == 0 else "EXIT:nz") + ";" + rest
 
 
 def contract_on_binary(case, r):
@@ -181,8 +190,8 @@ def contract_on_binary(case, r):
     has_f = f.startswith("{")
     if r["rc"] == 0:
         if case["out_file"]:
-            if not has_f or o != "-" or r["stdout"] != "":
-                bad.append("exit 0 with -o: expected the object in the file and nothing on stdout")
+            if not has_f or o != "-":
+                bad.append("exit 0 with -o: expected the object in the file and no object on stdout")
         else:
             if not has_o or f != "-":
                 bad.append("exit 0: expected exactly one JSON object line on stdout")
@@ -191,8 +200,8 @@ def contract_on_binary(case, r):
             bad.append("non-zero exit but an outputs object was emitted")
         if not (r["stdout"].strip() or r["stderr"].strip()):
             bad.append("non-zero exit without any error report")
-        if r["rc"] not in (1,):
-            bad.append("abnormal exit status %d (panic / abort / usage)" % r["rc"])
+        if r["rc"] < 0 or r["rc"] in ABNORMAL:
+            bad.append("abnormal termination, exit status %d (panic / abort / signal)" % r["rc"])
     return bad
 
 
@@ -231,6 +240,8 @@ IN_VALUES = [
     ('[{"__blots_function":"(x) => \'a\\"b\'"}, 1]', [FN, 1.0]),
     ('{"__blots_function":"(a, b?, ...r) => [a, b, r]"}', FN),
 ]
+UNLOADABLE_VALUES = ['[{"__blots_function":"(x) => \'a\\"b\'"}, 1]', '[[{"__blots_function":"(y) => \'q\\"\'"}]]',
+                     '[1, {"g": {"__blots_function":"() => \'\\"\'"}}]']
 BAD_JSON = ["{", "nope", '{"k":1,}', "", "{'k':1}", '{"k":1} x', "[1,"]
 
 
@@ -265,6 +276,14 @@ class CaseGen:
         r = self.r
         nflags = r.choice([0, 0, 1, 1, 2, 2, 3, 4])
         flags = [self.source() for _ in range(nflags)]
+        if r.chance(1, 8):
+            # numbering-focused: several non-object sources, some of which do not load
+            self.note("set:numbering-focused")
+            flags = [r.choice(UNLOADABLE_VALUES) if r.chance(1, 3) else r.choice(["5", '"s"', "[1]", "null", "true", "2.5"])
+                     for _ in range(2 + r.below(3))]
+            if r.chance(1, 3):
+                flags.insert(r.below(len(flags)), '{"value_2": "from-object", "k": 1}')
+                flags = flags[:4]
         stdin = None
         if mode != "eval":
             k = r.below(8)
@@ -395,6 +414,24 @@ class CaseGen:
         return r.choice(VAL_EXPRS)
 
 
+
+# --------------------------------------------------------------------------- the inputs probe
+PROBE_KEYS = IN_KEYS + ["zz"]
+PROBE_SCRIPT = ("output ks = keys(inputs)\noutput iv = inputs\noutput h = [%s]\n"
+                "f = () => [#k, inputs.k, #value_1, inputs.value_1, #zz]\noutput hf = f()\n"
+                "output hd = do {\n  t = 1\n  return [#n, inputs.n, #value_2]\n}"
+                % ", ".join("#%s, inputs.%s" % (k, k) for k in PROBE_KEYS))
+
+
+def probe_expected(merged):
+    d = dict(merged)
+    h = []
+    for k in PROBE_KEYS:
+        h += [d.get(k), d.get(k)]
+    return {"ks": [k for k, _ in merged], "iv": Obj(merged), "h": h,
+            "hf": [d.get("k"), d.get("k"), d.get("value_1"), d.get("value_1"), d.get("zz")],
+            "hd": [d.get("n"), d.get("n"), d.get("value_2")]}
+
 # --------------------------------------------------------------------------- the specification of merging (python)
 def spec_merge(sources, loadinfo):
     """sources: list of JSON texts in merge order; loadinfo: per source the harness's load flags
@@ -459,6 +496,7 @@ def model_terms(h, cases):
             ptab[s] = "(Some %s)" % t
     terms = []
     infos = []
+    iterms = []
     for cs in cases:
         ok = True
         stdin_t = "None"
@@ -476,13 +514,14 @@ def model_terms(h, cases):
             info["flags"].append(i)
         prog = "None" if cs["mode"] == "noscript" else ptab[cs["script"]]
         infos.append(info)
+        iterms.append("show_inputs %s [%s]" % (stdin_t, "; ".join(fl)) if ok else None)
         if not ok or prog is None:
             terms.append(None)
             continue
         terms.append("show_cli (cli_run eval_release %s %s %s [%s] %s)"
                      % (COQ_MODE[cs["mode"]], "true" if cs["out_file"] else "false", stdin_t,
                         "; ".join(x for x in fl), prog))
-    return terms, infos
+    return terms, infos, iterms
 
 
 def merge_sources(cs, info):
@@ -555,7 +594,7 @@ def main(argv):
             obs = observe(cs, r)
             print("implementation now returns:", obs)
             bad = contract_on_binary(cs, r)
-            if rp.get("expected") is not None and obs != rp["expected"]:
+            if rp.get("expected") is not None and law_view(obs) != law_view(rp["expected"]):
                 bad.append("observed %s, expected %s" % (obs, rp["expected"]))
             for b in bad:
                 print("still failing:", b)
@@ -563,6 +602,39 @@ def main(argv):
         return 0
 
     c.proof_step(res, PID, extra_targets=["EvalInst.vo", "Cli.vo"])
+
+    # ---------------- corpus: fixed regression cases (contract + model), run first
+    corpus = []
+    cpath = os.path.join(c.VERIF, "corpus", PID, "cases.json")
+    if os.path.exists(cpath):
+        with open(cpath) as f:
+            corpus = json.load(f)
+    cres = run_cases(cli, [e["case"] for e in corpus])
+    corpus_ok = 0
+    for e, r in zip(corpus, cres):
+        obs = observe(e["case"], r)
+        bad = contract_on_binary(e["case"], r)
+        if law_view(obs) != law_view(e["expected"]):
+            bad.append("observed %s but the contract demands %s" % (obs, e["expected"]))
+        if bad:
+            res.violation("CLI contract broken on the real binary (corpus case: %s): %s" % (e["what"], "; ".join(bad)),
+                          replay_dict(e["case"], r, {"expected": e["expected"], "observed_canonical": obs}))
+        else:
+            corpus_ok += 1
+    try:
+        cterms, _, _ = model_terms(h, [e["case"] for e in corpus])
+        cidx = [i for i, t in enumerate(cterms) if t is not None]
+        couts = c.coq_eval_batch(REQUIRES, "", [cterms[i] for i in cidx], "c19c", shard=5)
+        cm = [(corpus[i], observe(corpus[i]["case"], cres[i]), o) for i, o in zip(cidx, couts)
+              if o is not None and o != "UNMODELLED" and o != observe(corpus[i]["case"], cres[i])]
+        if cm:
+            res.tie_broken("correspondence C19/CORPUS: cli_run and the release binary disagree on corpus case %r"
+                           % cm[0][0]["what"], "impl : %s\nmodel: %s" % (cm[0][1], cm[0][2]))
+        res.streams["CORPUS"] = {"cases": len(corpus), "contract_ok": corpus_ok,
+                                 "model_compared": sum(1 for o in couts if o not in (None, "UNMODELLED")),
+                                 "model_mismatches": len(cm)}
+    except c.BrokenTie as e:
+        res.tie_broken(e.what, e.detail)
 
     n_cases = 450 if tier == "quick" else 6000
     g = CaseGen(rng)
@@ -576,7 +648,7 @@ def main(argv):
 
     # load info first (the python spec and the script generator need the merged inputs)
     try:
-        _, infos = model_terms(h, [dict(cs, mode="noscript") for cs in cases])
+        _, infos, _ = model_terms(h, [dict(cs, mode="noscript") for cs in cases])
     except c.BrokenTie as e:
         res.tie_broken(e.what, e.detail)
         return res.finish()
@@ -607,7 +679,7 @@ def main(argv):
             status_hist.get(obs.split(";")[0] + ("/-o" if cs["out_file"] else ""), 0) + 1
         n_law += 1
         bad = contract_on_binary(cs, r)
-        if obs != want:
+        if law_view(obs) != law_view(want):
             bad.append("observed %s but the contract demands %s" % (obs, want))
         if bad:
             if kc is not None:
@@ -623,7 +695,7 @@ def main(argv):
     agree = 0
     skipped = 0
     try:
-        terms, _ = model_terms(h, cases)
+        terms, _, _ = model_terms(h, cases)
         idx = [i for i, t in enumerate(terms) if t is not None]
         outs = c.coq_eval_batch(REQUIRES, "", [terms[i] for i in idx], "c19", shard=60)
         for i, o in zip(idx, outs):
@@ -648,7 +720,94 @@ def main(argv):
                           "skipped_unmodelled_or_known_class": skipped, "exit_histogram": status_hist,
                           "generator_histogram": g.stats, "known_class_hits": known_hits}
 
-    res.coverage["evaluations"] = len(cases)
+    # ---------------- INPUTS: merge order, value_k numbering and #name on the binary alone (spec = python),
+    #                  plus the merged record against the model (show_inputs)
+    n_inp = 250 if tier == "quick" else 4000
+    agree_inputs = 0
+    icases = []
+    for _ in range(n_inp):
+        mode = rng.choice(["file", "inline", "eval"])
+        cs = {"mode": mode, "out_file": rng.chance(1, 5), "script": PROBE_SCRIPT}
+        cs["stdin"], cs["flags"] = g.input_set(mode)
+        if rng.chance(1, 2):
+            cs["flags"] = [f for f in cs["flags"] if f not in BAD_JSON] + [g.source(False) for _ in range(rng.below(3))]
+            cs["flags"] = cs["flags"][:4]
+        icases.append(cs)
+    try:
+        _, iinfos, iterms = model_terms(h, [dict(cs, mode="noscript") for cs in icases])
+        iresults = run_cases(cli, icases)
+        n_keys_checked = 0
+        overlap = 0
+        unnamed = 0
+        dropped = 0
+        mterms = []
+        midx = []
+        mobs = []
+        for j, (cs, info, r) in enumerate(zip(icases, iinfos, iresults)):
+            texts, li = merge_sources(cs, info)
+            merged = spec_merge(texts, li)
+            bad = contract_on_binary(cs, r)
+            obs = observe(cs, r)
+            if merged is None:
+                if r["rc"] == 0:
+                    bad.append("an input source is not valid JSON but the exit status is 0")
+            else:
+                want = probe_expected(merged)
+                txt = r["file"] if cs["out_file"] else r["stdout"]
+                got = as_object_line(txt.strip()) if txt else None
+                if r["rc"] != 0 or got is None:
+                    bad.append("probe script did not produce an object (exit %d)" % r["rc"])
+                else:
+                    gd = dict(got)
+                    for key in ("ks", "iv", "h", "hf", "hd"):
+                        if canon(gd.get(key)) != canon(want[key]):
+                            bad.append("probe %s: observed %s, the merge/#name specification demands %s"
+                                       % (key, json.dumps(gd.get(key)), canon(want[key])))
+                    n_keys_checked += len(merged)
+                    allkeys = []
+                    for t_ in texts:
+                        try:
+                            v_ = loads(t_)
+                        except ValueError:
+                            continue
+                        if isinstance(v_, Obj):
+                            allkeys += [k for k, _ in v_]
+                        else:
+                            unnamed += 1
+                    overlap += 1 if len(allkeys) != len(set(allkeys)) else 0
+                    dropped += sum(1 for i_ in li if i_ and (i_ == "V1" or (i_.startswith("O") and len(i_) > 1)))
+                    # the implementation's merged record in the order keys(inputs) reports it, for the model
+                    if iterms[j] is not None and isinstance(gd.get("ks"), list) and isinstance(gd.get("iv"), Obj):
+                        ivd = dict(gd["iv"])
+                        midx.append(j)
+                        mterms.append(iterms[j])
+                        mobs.append(canon_top([(k, ivd.get(k)) for k in gd["ks"]]))
+            if bad:
+                res.violation("input merging / #name contract broken on the real binary: " + "; ".join(bad[:3]),
+                              replay_dict(cs, r, {"observed_canonical": obs, "probe": True}))
+                if len(res.violations) >= 5:
+                    break
+        mouts = c.coq_eval_batch(REQUIRES, "", mterms, "c19i", shard=60)
+        magree = 0
+        mmis = []
+        for j, o, ob in zip(midx, mouts, mobs):
+            if o == ob:
+                magree += 1
+            else:
+                mmis.append((icases[j], ob, o))
+        if mmis:
+            res.tie_broken("correspondence C19/INPUTS: read_inputs and the release binary disagree on the merged "
+                           "inputs record for %d of %d input sets" % (len(mmis), len(midx)),
+                           "first: %s\nimpl : %s\nmodel: %s" % (json.dumps(mmis[0][0]), mmis[0][1], mmis[0][2]))
+        agree_inputs = magree
+        res.streams["INPUTS"] = {"cases": len(icases), "model_compared": len(midx), "model_agree": magree,
+                                 "mismatches": len(mmis), "merged_keys_checked": n_keys_checked,
+                                 "cases_with_overlapping_keys": overlap, "non_object_sources": unnamed,
+                                 "sources_with_dropped_entries": dropped}
+    except c.BrokenTie as e:
+        res.tie_broken(e.what, e.detail)
+
+    res.coverage["evaluations"] = len(cases) + len(icases)
     res.coverage["distinct_nontrivial"] = len({json.dumps(cs, sort_keys=True) for cs, r in zip(cases, results)
                                                if cs["mode"] != "noscript" and (cs["flags"] or cs["stdin"] or
                                                                                  "output" in cs["script"])})
@@ -660,7 +819,7 @@ def main(argv):
                             "least one input source or output declaration")
     res.coverage["samples"] = [{"case": cases[i], "observed": observe(cases[i], results[i])}
                                for i in (0, len(cases) // 2, len(cases) - 1)]
-    res.coverage["traces_validated_against_impl"] = agree
+    res.coverage["traces_validated_against_impl"] = agree + agree_inputs
     res.assumptions = ["stdin is always a pipe (closed, blank or with content); a terminal stdin (REPL) is not exercised",
                        "function values are compared as 'function' only (their printed text is C05's subject)",
                        "the script argument is never the name of an existing file in inline mode (fresh scratch cwd)"]
@@ -671,7 +830,7 @@ def main(argv):
         still = True
         if w:
             r = run_case(cli, w)
-            still = observe(w, r) != e.get("witness_expected")
+            still = law_view(observe(w, r)) != law_view(e.get("witness_expected"))
         res.known("%s %s%s" % (e["id"], e["what"], "" if still else " (no longer reproduces)"))
     return res.finish()
 
